@@ -1,8 +1,12 @@
 CONSTANTS
   N = 4
+  Plain = 2
+  Alike = 3
   Site <- SiteSpec
 SPECIFICATION Spec
 INVARIANT TypeOK
+INVARIANT RelationsOK
+INVARIANT StableSortOK
 INVARIANT SortedIsEnumeration
 INVARIANT OrderIndependence
 INVARIANT ReportVary
